@@ -15,6 +15,10 @@ import Peppi.Lemmas.C01B
 import Peppi.Lemmas.C01C
 import Peppi.Lemmas.C01G
 import Peppi.PremisesViews
+import Peppi.Lemmas.GenFile
+import Peppi.Lemmas.GenInst
+import Peppi.Lemmas.GenCor
+import Peppi.Lemmas.GenExample
 set_option linter.unusedVariables false
 namespace Peppi.Props.C17
 
@@ -176,5 +180,56 @@ theorem views_Velocities : structOK false true Velocities.views = true :=
 open Extracted in
 theorem views_Velocity : structOK false true Velocity.views = true :=
   _root_.Peppi.views_Velocity 
+
+/- from `Peppi.Lemmas.GenFile` -/
+open Extracted in
+theorem readTail_gen (T : TextOracle) (rawLen : Nat) (ps : ParseState) (md : Option KVs) (x : Bytes)
+    (hbr : ps.bytesRead + x.length = rawLen) (hmd : ps.st.metadata = none)
+    (hwf : ∀ m, md = some m → KVs.WF T.utf8Ok 1 m) :
+    readTail T rawLen ps (x ++ metaBytes md) =
+      .ok (gameOf ps.st.closed md (dgeOf ps.st.start.version x ps.st.doubleGameEnd), []) :=
+  _root_.Peppi.readTail_gen T rawLen ps md x hbr hmd hwf
+
+/- from `Peppi.Lemmas.GenFile` -/
+open Extracted in
+theorem readP_gen (T : TextOracle) (f : GFile) (s : Start) (psF : ParseState) (h : f.WF T s psF) :
+    ∃ ge : Option End, f.fend.map gameEnd = ge.map Res.ok ∧
+      readP T {} f.encode =
+        .ok (gameOf ({ psF.st with fend := ge } : PState).closed f.metadata (dgeOf s.version f.extra none), []) :=
+  _root_.Peppi.readP_gen T f s psF h
+
+/- from `Peppi.Lemmas.GenInst` -/
+open Extracted in
+theorem readP_irregular (T : TextOracle) (r : Replay) (s : Start) (gk : Option GeckoBlocks) (i : Irr) (h : i.OK T r s gk) :
+    ∃ ge : Option End, r.fend.map gameEnd = ge.map Res.ok ∧
+      readP T {} (r.fileIrr s gk i).encode = .ok (r.gameAny s ge gk, []) :=
+  _root_.Peppi.readP_irregular T r s gk i h
+
+/- from `Peppi.Lemmas.GenCor` -/
+open Extracted in
+theorem C17_any (T : TextOracle) (r : Replay) (s : Start) (gk : Option GeckoBlocks) (i : Irr) (h : i.OK T r s gk)
+    (hmax : assertMaxVersion s.version = .ok ()) :
+    ∃ g y, readSlp T { skipFrames := false, computeHash := false } (r.fileIrr s gk i).encode = .ok g ∧
+      writeSlp g = .ok y ∧
+      (∃ raw rest, y = FILE_SIGNATURE ++ (toBE 4 raw.length ++ (raw ++ rest)) ∧ raw.length < 256 ^ 4) ∧
+      readSlp T { skipFrames := false, computeHash := false } y = .ok g ∧
+      (∀ g', readSlp T { skipFrames := false, computeHash := false } y = .ok g' → writeSlp g' = .ok y) :=
+  _root_.Peppi.C17_any T r s gk i h hmax
+
+/- from `Peppi.Lemmas.GenCor` -/
+open Extracted in
+theorem encodeAny_declares_actual (r : Replay) (v : Ver) (shape : List PortOccupancy) (gk : Option GeckoBlocks) :
+    ∃ rest, r.encodeAny v shape gk = FILE_SIGNATURE ++ (toBE 4 (r.rawAny v shape gk).length ++ (r.rawAny v shape gk ++ rest)) :=
+  _root_.Peppi.encodeAny_declares_actual r v shape gk
+
+/- from `Peppi.Lemmas.GenExample` -/
+open Extracted in
+theorem exampleIrr_B_fixedpoint :
+    let r := exReplay (exBlock 2 2 418) (exFrames [-123, -122, -122] 16 23 1 0 0 false) [2, 255]
+    let s := startOf (exBlock 2 2 418)
+    let i := exIrr s.version (portOccupancy s) (exFrames [-123, -122, -122] 16 23 1 0 0 false) []
+    ∃ g y, readSlp T0 { skipFrames := false, computeHash := false } (r.fileIrr s none i).encode = .ok g ∧ writeSlp g = .ok y ∧
+      readSlp T0 { skipFrames := false, computeHash := false } y = .ok g :=
+  _root_.Peppi.exampleIrr_B_fixedpoint 
 
 end Peppi.Props.C17
